@@ -62,6 +62,23 @@ pub struct Chal {
     pub realm: bool,
     pub nonce: NonceKind,
     pub pas: PasKind,
+    /// which realm the challenge names: 0 = REALM, 1 = the same letters in another case, 2 = another realm
+    #[serde(default)]
+    pub realm_v: u8,
+}
+
+pub fn realm_name(v: u8) -> &'static str {
+    match v {
+        0 => REALM,
+        1 => "EXAMPLE.org",
+        _ => "other.example",
+    }
+}
+
+/// value of the REALM attribute the request carries (the realm its sender keyed it for)
+pub fn request_realm(req: &[u8]) -> Option<String> {
+    let p = ref_parse(req).ok()?;
+    p.tlvs.iter().find(|t| t.ty == codec::T_REALM).and_then(|t| String::from_utf8(t.value.clone()).ok())
 }
 
 #[derive(Clone, Copy, Debug, PartialEq, Eq, Hash, serde::Serialize, serde::Deserialize)]
@@ -138,7 +155,7 @@ pub fn request_algorithm(req: &[u8]) -> Option<u16> {
 pub fn reply_key(w: &World, req: Option<&[u8]>, other_pass: bool) -> Vec<u8> {
     let pass = if other_pass { OTHER_PASS } else { PASS };
     match w.cfg.mech {
-        Mech::LongTerm => lt_key(req.and_then(request_algorithm).unwrap_or(1), REALM, pass),
+        Mech::LongTerm => lt_key(req.and_then(request_algorithm).unwrap_or(1), &req.and_then(request_realm).unwrap_or_else(|| REALM.to_string()), pass),
         _ => pass.as_bytes().to_vec(),
     }
 }
@@ -156,7 +173,7 @@ pub fn build_reply(w: &World, tid: [u8; 12], req: Option<&[u8]>, r: &Reply) -> V
     };
     if let Some(c) = &r.chal {
         if c.realm {
-            attrs.push(L::Realm(REALM.into()));
+            attrs.push(L::Realm(realm_name(c.realm_v).into()));
         }
         if let Some(n) = nonce_string(c.nonce) {
             attrs.push(L::Nonce(n));
@@ -241,7 +258,7 @@ pub fn challenge_of(c: &Chal) -> Option<Challenge> {
         NonceKind::Cookie(p, a, _) => (p, a),
         _ => (false, false),
     };
-    Some(Challenge { realm: REALM.into(), nonce, offered: pas_list(c.pas), pa_bit, anon_bit })
+    Some(Challenge { realm: realm_name(c.realm_v).into(), nonce, offered: pas_list(c.pas), pa_bit, anon_bit })
 }
 
 #[derive(Clone, Debug, PartialEq, Eq)]
